@@ -32,6 +32,7 @@ type xenv struct {
 	unsigned bool   // TSIG: send without TSIG
 	badKey   bool   // TSIG: sign with another secret
 	alter    bool   // flip a bit of the packed message after signing
+	macCut   int    // >= 0 with alter: also cut the MAC down to that many octets (a forged envelope with a short MAC)
 	cutAt    int    // >0: close the connection after this many octets of this message
 	raw      []byte // pre-packed octets (filled by the sender)
 }
@@ -131,6 +132,11 @@ func runTransfer(qtype uint16, qid uint16, qser uint32, envs []xenv, tsig bool) 
 			}
 			if e.alter && len(out) > 20 {
 				out[2] ^= 0x01 // the RD flag: header flags are covered by the digest
+				if e.macCut >= 0 {
+					if t := truncateMAC(out, e.macCut); t != nil {
+						out = t
+					}
+				}
 			}
 			frames = append(frames, append(putUint(nil, 2, uint64(len(out))), out...))
 			cuts = append(cuts, e.cutAt)
@@ -356,7 +362,8 @@ func runC15(c *Ctx) {
 			desc = fmt.Sprintf("badkey@%d", j)
 		case 3:
 			envs[j].alter = true
-			desc = fmt.Sprintf("altered@%d", j)
+			envs[j].macCut = []int{-1, -1, 0, 0, 1, 10, 16, 31}[r.Intn(8)]
+			desc = fmt.Sprintf("altered@%d,mac-cut=%d", j, envs[j].macCut)
 		case 4:
 			if len(envs) >= 2 {
 				k := r.Intn(len(envs) - 1)
@@ -386,6 +393,14 @@ func runC15(c *Ctx) {
 			complete := !strings.Contains(got, "err") && !strings.Contains(got, "hang") && len(res.envs) > j
 			c.Pred("tsig", "tsig-every-envelope-verified", in, !complete, got, "an error at or before the faulty envelope", true)
 			c.Hit("tsig:" + strings.Split(desc, "@")[0])
+		}
+	}
+	// 5. the sending side: several signed transfers over one connection to a real server (RFC 5936 section 4.1.1);
+	//    each must be delivered exactly, its first envelope chained to its own request
+	for _, seq := range []string{"x", "xx", "xxx", "qx", "xqx"} {
+		for _, nrec := range []int{0, 1, 3} {
+			res := tsigServerSession(seq, nrec)
+			c.Pred("tsig-server", "signed-transfers-on-one-connection", fmt.Sprintf("sequence=%s records=%d", seq, nrec), sessionOK(res, len(seq)), sessionText(res), "every transaction ok", true)
 		}
 	}
 }
